@@ -38,7 +38,7 @@ FUNC_PIDS = {
     "_get_prefix_map": ["C04", "C02"], "_get_reverse_prefix_map": ["C04", "C01"], "_get_prefix_synmap": ["C04", "C02"], "_get_pattern_map": ["C14", "C05"],
     "_match_record": ["C05", "C09"], "add_record": ["C05"], "_merge": ["C05"], "add_prefix": ["C05"], "chain": ["C09", "C10"], "_eq": ["C05", "C09"], "_in": ["C05", "C09"],
     "get_subconverter": ["C09", "C10"], "get_record": ["C02", "C11"], "get_prefixes": ["C04"], "get_uri_prefixes": ["C04"],
-    "remap_curie_prefixes": ["C11", "C10"], "_order_curie_remapping": ["C11"], "remap_uri_prefixes": ["C12", "C10"], "rewire": ["C12", "C10"],
+    "remap_curie_prefixes": ["C11", "C10"], "_get_copy": ["C11", "C10"], "_split": ["C02", "C15"], "_order_curie_remapping": ["C11"], "remap_uri_prefixes": ["C12", "C10"], "rewire": ["C12", "C10"],
     "_get_curie_preferred_or_synonym": ["C12"], "_get_uri_preferred_or_synonym": ["C12"],
     "from_extended_prefix_map": ["C13"], "from_priority_prefix_map": ["C13"], "from_prefix_map": ["C13"], "from_reverse_prefix_map": ["C13"],
     "from_jsonld": ["C13", "C14"], "from_rdflib": ["C13"], "_prepare": ["C13"], "upgrade_prefix_map": ["C13"], "from_shacl": ["C14"],
